@@ -108,6 +108,13 @@ def run(rep, wd, tier, seed):
             for lo in range(0, nrand, 200):
                 jobs.append((seed, cfgspec, codec, 'sets', lo, min(nrand, lo + 200), None))
     outs = isocheck._pool(_drive, jobs)
+    tjobs = [(seed, cfgspec, codec, 'sets', 3000 + 100 * i, 3000 + 100 * i + (150 if tier == 'thorough' else 60), None)
+             for i, (cfgspec, codec) in enumerate([(('pkg',), 'latin_1'), (('pkgvar', 0), 'cp037'), (('gen', 1200 + seed), 'latin_1'),
+                                                   (('pkg',), 'cp037'), (('pkgshuf', 0), 'latin_1'), (('pkgvar', 1), 'cp037'),
+                                                   (('pkg',), 'latin_1'), (('gen', 1201 + seed), 'cp037')])]
+    jobs = jobs + tjobs
+    outs = outs + isocheck.mark_threaded(isocheck.threaded('harness.c12', '_drive', tjobs))
+    rep.extra['histories_driven_from_four_threads_at_once'] = sum(len(o) for o in outs[-len(tjobs):])
     groups = {}
     for j, o in zip(jobs, outs):
         g = groups.setdefault((j[1], j[2]), [])
